@@ -87,6 +87,7 @@ enum {
   mythv_p_felock_status,
   mythv_p_desc_field,
   mythv_p_sleepq,
+  mythv_p_q_put_recentre,
   mythv_p_user = 100
 };
 
